@@ -205,7 +205,9 @@ class MonitoredList(MonitoredContainer, list):
     def __setitem__(self, idx, value):
         # the position refers to the list as it is now: recording may append inferred elements to it
         if isinstance(idx, slice):
-            idx = slice(*idx.indices(len(self)))
+            start, stop, step = idx.indices(len(self))
+            # counting down, indices() gives -1 for "down to the first element", which a slice reads as the last one
+            idx = slice(start, None if step < 0 and stop < 0 else stop, step)
             value = [self._on_add(v) for v in value]
         else:
             idx = self._position_now(idx)
